@@ -22,7 +22,7 @@ def nabs(x):
 
 MANIFEST = dict(
     technique='explicit-state enumeration of the cost-matrix input tree x blank index x all label sequences; real force_align/align_text vs brute force over all C^T symbol paths',
-    text='Bounded exhaustive: every cost matrix with T <= 4 (quick) / 5 (thorough) rows over an 8-row alphabet (ties, +inf, fractional) for C=3 and T <= 3/4 over 6 rows for C=4, every blank index, every label sequence of length 1..T+1 (repeats included) and sequences containing the blank; the same for float32 and integer cost matrices up to T = 3 / 4. Validity, optimality, the exact feasibility boundary and the most-confident-frame rule are checked against enumeration of all alignments. Added sub-sweeps: float32 / int64 cost matrices, costs shifted by +1000 / +200 (float32) / scaled by 1e-17, a 300-symbol output layer with small-integer label arrays, and lines of 260-1030 frames against a dynamic-programming minimum (validated against brute force in setup). Cost matrices whose entries are all negative. Wave 10: impossible symbols (+inf) next to finite costs of hundreds; every single failing array allocation of force_align / align_text on all two-row matrices.',
+    text='Bounded exhaustive: every cost matrix with T <= 4 (quick) / 5 (thorough) rows over an 8-row alphabet (ties, +inf, fractional) for C=3 and T <= 3/4 over 6 rows for C=4, every blank index, every label sequence of length 1..T+1 (repeats included) and sequences containing the blank; the same for float32 and integer cost matrices up to T = 3 / 4. Validity, optimality, the exact feasibility boundary and the most-confident-frame rule are checked against enumeration of all alignments. Added sub-sweeps: float32 / int64 cost matrices, costs shifted by +1000 / +200 (float32) / scaled by 1e-17, a 300-symbol output layer with small-integer label arrays, and lines of 260-1030 frames against a dynamic-programming minimum (validated against brute force in setup). Cost matrices whose entries are all negative. Wave 10: impossible symbols (+inf) next to finite costs of hundreds; every single failing array allocation of force_align / align_text on all two-row matrices. Wave 11: dense lines - T in {100, 127..129, 255..257} frames (both sides of 2^7 / 2^8) x every blank index x label counts L with L and the number of states 2L+1 just below / at / above 2^7 and 2^8, T/2, T-1, T (one label per frame) and T+1 (does not fit), with and without immediate repeats, against the dynamic-programming minimum (few frames with many states: a state index that does not fit the type a frame index fits).',
     note='Costs outside the alphabet and T above the bound are not explored; ties accept any optimal alignment; all-infinite alignments may either fail or be returned.',
     ref='3/C05')
 INF = float('inf')
@@ -114,10 +114,36 @@ def shards(tier):
         out.append({'long': T})
     for first in range(len(ROWS3)):
         out.append({'faults': first})
+    # dense lines around the integer-type boundaries 2^7 / 2^8: the number of frames T, the number of labels L and the number of states 2L+1 on
+    # both sides of the boundary independently (few frames with many states is a relation that neither the small matrices nor the long lines have)
+    for T in DENSE_T[tier if tier in DENSE_T else 'quick']:
+        for blank in range(3):
+            out.append({'dense': T, 'blank': blank})
     return out
 
 
 LONG_T = {'quick': [260, 300], 'thorough': [260, 300, 520, 1030]}
+
+
+DENSE_T = {'quick': [100, 127, 128, 129, 255, 256, 257], 'thorough': [65, 100, 126, 127, 128, 129, 130, 200, 254, 255, 256, 257, 258]}
+
+
+def dense_L(T):
+    """label counts for a line of T frames: L and the number of states 2L+1 just below / at / just above 2^7 and 2^8, half the frames, and the
+    feasibility boundary (one label per frame, one more than fits)"""
+    return sorted({L for L in (62, 63, 64, 65, 126, 127, 128, 129, T // 2, T // 2 + 1, T - 1, T, T + 1) if 1 <= L <= T + 1})
+
+
+def dense_labels(L, blank, kind):
+    a, b = [s for s in range(3) if s != blank]
+    if kind == 'alt':                                     # no immediate repeat: fits iff L <= T
+        return [(a, b)[i % 2] for i in range(L)]
+    return [(a, a, b, a, b, b, b, a)[i % 8] for i in range(L)]     # 'rep': immediate repeats (each needs a separating blank frame)
+
+
+def dense_matrix(T):
+    rows = [r for r in ROWS3 if INF not in r]
+    return [rows[(t * 3 + t // 5) % len(rows)] for t in range(T)]
 
 
 def dp_min_cost(M, labels, blank):
@@ -162,6 +188,11 @@ def run_shard(shard, ctx, tier):
     if 'long' in shard:
         for k in range(6):
             guarded_check(mod, {'long': shard['long'], 'k': k}, ctx)
+        return
+    if 'dense' in shard:
+        for L in dense_L(shard['dense']):
+            for kind in ('alt', 'rep'):
+                guarded_check(mod, {'dense': shard['dense'], 'L': L, 'kind': kind, 'blank': shard['blank']}, ctx)
         return
     if 'faults' in shard:
         for second in range(len(ROWS3)):
@@ -215,14 +246,33 @@ def label_space(C, T, blank):
 
 def check_long(case, ctx):
     from pero_ocr.core.force_alignment import force_align, align_text
-    T, blank = case['long'], 2
-    M, labels = list(long_cases(T))[case['k']]
+    if 'dense' in case:
+        T, blank = case['dense'], case['blank']
+        M, labels = dense_matrix(T), dense_labels(case['L'], blank, case['kind'])
+        sid = ('dense', T, case['L'], case['kind'], blank)
+        K = f'{ID}/dense'
+    else:
+        T, blank = case['long'], 2
+        M, labels = list(long_cases(T))[case['k']]
+        sid = ('long', T, case['k'])
+        K = f'{ID}/long'
     A = np.asarray(M, dtype=np.float64)
     want = dp_min_cost(M, labels, blank)
-    ctx.state(('long', T, case['k']))
-    ctx.tag('more-than-255-frames')
-    K = f'{ID}/long'
-    desc = f'{T} frames, {len(labels)} labels ({labels[:6]}...), cost rows cycling through the 3-symbol alphabet'
+    ctx.state(sid)
+    if 'dense' in case:
+        S = 2 * len(labels) + 1
+        if want < INF:
+            if S > T:
+                ctx.tag('dense-line-more-states-than-frames')
+            for bits in (7, 8, 15):
+                if S > 2 ** bits - 1 and T <= 2 ** bits:
+                    ctx.tag(f'states-beyond-{bits}-bits-frames-within')        # a state index does not fit the type that holds a frame index
+                    break
+            if len(labels) == T:
+                ctx.tag('one-label-per-frame')
+    else:
+        ctx.tag('more-than-255-frames')
+    desc = f'{T} frames, {len(labels)} labels ({labels[:6]}...), blank {blank}, cost rows cycling through the 3-symbol alphabet'
     ctx.executed()
     try:
         got = [int(x) for x in force_align(A.copy(), list(labels), blank)]
@@ -268,8 +318,8 @@ def check_long(case, ctx):
     if bad:
         ctx.violation('positions-most-confident-frame', f'{K}/align_text', f'{desc}: {bad}')
         return
-    ctx.outcome(('long', T, len(labels)))
-    ctx.nontrivial(('long', T, case['k']))
+    ctx.outcome((sid[0], T, len(labels)))
+    ctx.nontrivial(sid)
 
 
 def check_faults(case, ctx):
@@ -317,7 +367,7 @@ def check_case(case, ctx):
     from pero_ocr.core.force_alignment import force_align, align_text
     if 'faults' in case:
         return check_faults(case, ctx)
-    if 'long' in case:
+    if 'long' in case or 'dense' in case:
         return check_long(case, ctx)
     C, rows, blank = case['C'], case['rows'], case['blank']
     dt = case.get('dtype', 'f64')
@@ -511,6 +561,6 @@ def describe(tier):
                         'ties: any minimum-cost alignment and any most-confident frame is accepted',
                         'per-frame confidence = max over symbols of the frame (as stated: "where the network is most confident")'],
         'min_nontrivial': 100,
-        'required_tags': ['cost-buffer-refilled-in-place', 'fault-points', 'failure-reported', 'more-than-255-frames', 'unusual-cost-magnitudes', 'repeated-label-aligned', 'multi-frame-char-with-distinct-confidences', 'only-infinite-alignments',
+        'required_tags': ['dense-line-more-states-than-frames', 'states-beyond-7-bits-frames-within', 'states-beyond-8-bits-frames-within', 'one-label-per-frame', 'cost-buffer-refilled-in-place', 'fault-points', 'failure-reported', 'more-than-255-frames', 'unusual-cost-magnitudes', 'repeated-label-aligned', 'multi-frame-char-with-distinct-confidences', 'only-infinite-alignments',
                           'non-float64-cost-matrices', 'wide-alphabet-small-int-labels'],
     }
